@@ -64,7 +64,7 @@ func lScenario(r *Rng, id int) lHist {
 		n := 9 + r.Intn(5)
 		for j := 0; j < n; j++ {
 			if lev {
-				add(lOp{Op: "lev_open", U: u, Amt: r.Decade(6, 8).String(), Lev: []string{"2", "3"}[r.Intn(2)], P: "0"})
+				add(lOp{Op: "lev_open", U: u, Amt: r.Decade(6, 8).String(), Lev: []string{"2", "3", "1", "1.5"}[r.Intn(4)], P: "0"}) // leverage 1: a top-up that borrows nothing
 			} else {
 				add(lOp{Op: "join", U: u, Pool: 0, Dir: 1 + r.Intn(2), Amt: r.Decade(6, 9).String()})
 			}
@@ -193,7 +193,7 @@ func lGenN(r *Rng, id int, n int) lHist {
 		case x < 49:
 			h.Ops = append(h.Ops, lOp{Op: "unbond", U: u, Rel: r.Intn(6)})
 		case x < 57:
-			h.Ops = append(h.Ops, lOp{Op: "lev_open", U: u, Amt: r.Decade(3, 11).String(), Lev: []string{"1.5", "2", "3", "5", "9.5", "10"}[r.Intn(6)], P: []string{"0", "0", "0.5", "2"}[r.Intn(4)]})
+			h.Ops = append(h.Ops, lOp{Op: "lev_open", U: u, Amt: r.Decade(3, 11).String(), Lev: []string{"1.5", "2", "3", "5", "9.5", "10", "1", "1.000001"}[r.Intn(8)], P: []string{"0", "0", "0.5", "2"}[r.Intn(4)]})
 		case x < 62:
 			h.Ops = append(h.Ops, lOp{Op: "lev_close", U: u, Idx: r.Intn(4), Rel: r.Intn(6)})
 		case x < 66:
